@@ -6,6 +6,8 @@ escapes, kind resolution and concatenation.
 import ChibiVerif.Lemmas.LiteralsLemmas
 import ChibiVerif.Lemmas.TextLemmas
 
+set_option linter.unusedSimpArgs false
+
 namespace ChibiVerif.Lemmas.Readers
 open ChibiVerif.Gen.Literals
 open ChibiVerif.Spec.Literals
@@ -424,5 +426,466 @@ theorem join_result (t1 t2 : StrTok) (rest : List StrTok) (ps : List StrPrefix) 
                 exact Or.inl hab.symm
           exact key _ _ (.cons hf hp')
         · simp [List.length_flatten, Function.comp_def]
+
+-- ------------------------------------------------------------------ whole string literal
+
+theorem drop_add (p : List Byte) (i k : Nat) (bs rest : List Byte) (h : p.drop i = bs ++ rest) (hk : bs.length = k) :
+    p.drop (i + k) = rest := by
+  have := congrArg (List.drop k) h
+  rw [List.drop_drop] at this
+  rw [Nat.add_comm] at this
+  rw [Nat.add_comm, this, ← hk]; simp
+
+/-- plain bytes (no quote, new-line, NUL, backslash) are skipped one at a time by `string_literal_end` -/
+theorem strEnd_bytes (p : List Byte) : ∀ (bs : List Byte) (fuel i : Nat) (rest : List Byte),
+    (∀ b ∈ bs, b ≠ 34#8 ∧ b ≠ 10#8 ∧ b ≠ 0#8 ∧ b ≠ 92#8) → p.drop i = bs ++ rest →
+    strEnd p (fuel + bs.length) i = strEnd p fuel (i + bs.length) := by
+  intro bs
+  induction bs with
+  | nil => intro fuel i rest _ _; rfl
+  | cons b bs ih =>
+    intro fuel i rest hb hd
+    have h0 : byteAt p i = b := byteAt_of_drop p i b (bs ++ rest) (by simpa using hd)
+    have hd' : p.drop (i + 1) = bs ++ rest := drop_add p i 1 [b] (bs ++ rest) (by simpa using hd) rfl
+    obtain ⟨h1, h2, h3, h4⟩ := hb b (by simp)
+    have e : fuel + (b :: bs).length = (fuel + bs.length) + 1 := by simp; omega
+    rw [e, strEnd]
+    simp only [h0, h1, h2, h3, h4, if_false, false_or]
+    rw [ih fuel (i + 1) rest (fun x hx => hb x (List.mem_cons_of_mem _ hx)) hd']
+    simp [Nat.add_assoc, Nat.add_comm 1]
+
+theorem xdigit_plain (x : Byte) : isXDigit x = true → x ≠ 34#8 ∧ x ≠ 10#8 ∧ x ≠ 0#8 ∧ x ≠ 92#8 := by
+  revert x; apply forall_byte; decide +kernel
+
+theorem charOK_bytes (c : BitVec 32) (hc : CharOK c) : ∀ b ∈ encodeUtf8 c, b ≠ 34#8 ∧ b ≠ 10#8 ∧ b ≠ 0#8 ∧ b ≠ 92#8 := by
+  obtain ⟨h1, h2, h3, h4, h5⟩ := hc
+  intro b hb
+  have hm : b.toNat ∈ utf8 c.toNat := by
+    rw [← encode_toNat c (by omega)]; exact List.mem_map_of_mem hb
+  have key : b.toNat ≠ 34 ∧ b.toNat ≠ 10 ∧ b.toNat ≠ 0 ∧ b.toNat ≠ 92 := by
+    unfold utf8 at hm
+    split at hm
+    · simp at hm; omega
+    · split at hm
+      · simp at hm; omega
+      · split at hm
+        · simp at hm; omega
+        · simp at hm; omega
+  refine ⟨?_, ?_, ?_, ?_⟩ <;> (intro h; rw [h] at key; simp at key)
+
+/-- `string_literal_end` walks over a well-formed body and stops at the closing quote -/
+theorem strEnd_items (p : List Byte) (post : List Byte) : ∀ (its : List SrcItem) (fuel i : Nat),
+    ItemsOK post its → p.drop i = renderItems its ++ 34#8 :: post →
+    strEnd p (fuel + (renderItems its).length + 1) i = .ok (i + (renderItems its).length) := by
+  intro its
+  induction its with
+  | nil =>
+    intro fuel i _ hd
+    have h0 : byteAt p i = 34#8 := byteAt_of_drop p i _ post (by simpa [renderItems] using hd)
+    simp [renderItems, strEnd, h0]
+  | cons it its ih =>
+    intro fuel i hok hd
+    cases it with
+    | char c =>
+      obtain ⟨hc, hrest⟩ := hok
+      simp only [renderItems, renderItem, List.append_assoc] at hd ⊢
+      have hd' := drop_add p i _ _ _ hd rfl
+      have := strEnd_bytes p (encodeUtf8 c) (fuel + (renderItems its).length + 1) i _ (charOK_bytes c hc) hd
+      rw [List.length_append]
+      have e : fuel + ((encodeUtf8 c).length + (renderItems its).length) + 1 =
+          fuel + (renderItems its).length + 1 + (encodeUtf8 c).length := by omega
+      rw [e, this, ih fuel _ hrest hd']
+      simp [Nat.add_assoc]
+    | esc body v =>
+      obtain ⟨⟨b, tl, hb, hb0, hb10, hx⟩, _, hrest⟩ := hok
+      subst hb
+      simp only [renderItems, renderItem, List.cons_append, List.append_assoc] at hd ⊢
+      have h0 : byteAt p i = 92#8 := byteAt_of_drop p i _ _ hd
+      have hd2 : p.drop (i + 2) = tl ++ (renderItems its ++ 34#8 :: post) :=
+        drop_add p i 2 [92#8, b] _ (by simpa using hd) rfl
+      have hd3 := drop_add p (i + 2) _ _ _ hd2 rfl
+      have e : fuel + ((92#8 :: b :: (tl ++ renderItems its)).length) + 1 =
+          (fuel + (renderItems its).length + 1 + tl.length + 1) + 1 := by simp; omega
+      rw [e, strEnd]
+      have n1 : (92#8 : Byte) ≠ 34#8 := by decide
+      have n2 : ¬ ((92#8 : Byte) = 10#8 ∨ (92#8 : Byte) = 0#8) := by decide
+      simp only [h0, n1, n2, if_false, if_true]
+      have e2 : fuel + (renderItems its).length + 1 + tl.length + 1 = (fuel + (renderItems its).length + 1 + 1) + tl.length := by omega
+      rw [e2, strEnd_bytes p tl _ (i + 2) _ (fun x hx' => xdigit_plain x (hx x hx')) hd2]
+      -- one unit of fuel is left over: harmless
+      have := ih (fuel + 1) (i + 2 + tl.length) hrest hd3
+      have e3 : fuel + 1 + (renderItems its).length + 1 = fuel + (renderItems its).length + 1 + 1 := by omega
+      rw [e3] at this
+      rw [this]
+      simp [Nat.add_assoc]; omega
+
+theorem utf8Len_pos (n : Nat) : 0 < utf8Len n := by
+  unfold utf8Len; split <;> (try split) <;> (try split) <;> omega
+
+theorem narrowLoop_items (p post : List Byte) (endp : Nat) : ∀ (its : List SrcItem) (fuel i : Nat) (acc : List Nat),
+    ItemsOK post its → p.drop i = renderItems its ++ 34#8 :: post → endp = i + (renderItems its).length →
+    (renderItems its).length < fuel →
+    narrowLoop p endp fuel i acc = .ok (acc.reverse ++ its.flatMap (itemUnits .narrow)) := by
+  intro its
+  induction its with
+  | nil =>
+    intro fuel i acc _ _ he hf
+    cases fuel with
+    | zero => simp at hf
+    | succ f =>
+      simp only [renderItems, List.length_nil, Nat.add_zero] at he
+      rw [narrowLoop]; simp [he]
+  | cons it its ih =>
+    intro fuel i acc hok hd he hf
+    cases it with
+    | char c =>
+      obtain ⟨hc, hrest⟩ := hok
+      simp only [renderItems, renderItem, List.append_assoc, List.length_append] at hd he hf
+      have hl := encode_length c (by have := hc.1; omega)
+      have hd' := drop_add p i _ _ _ hd rfl
+      obtain ⟨f', hf'⟩ : ∃ f', fuel = f' + utf8Len c.toNat := ⟨fuel - utf8Len c.toNat, by omega⟩
+      subst hf'
+      rw [narrowLoop_char p endp f' i acc c _ hc.1 hc.2.2.2.2 (by omega) hd]
+      rw [ih f' _ _ hrest (by rw [← hl]; exact hd') (by omega) (by omega)]
+      simp [itemUnits, encode_toNat c (by have := hc.1; omega)]
+    | esc body v =>
+      obtain ⟨⟨b, tl, hb, _, _, _⟩, hread, hrest⟩ := hok
+      simp only [renderItems, renderItem, List.cons_append, List.append_assoc, List.length_cons, List.length_append] at hd he hf
+      have h0 : byteAt p i = 92#8 := byteAt_of_drop p i _ _ hd
+      have hd1 : p.drop (i + 1) = body ++ (renderItems its ++ 34#8 :: post) := drop_add p i 1 [92#8] _ (by simpa using hd) rfl
+      have hd2 := drop_add p (i + 1) _ _ _ hd1 rfl
+      cases fuel with
+      | zero => simp at hf
+      | succ f =>
+        rw [narrowLoop]
+        have hi : i < endp := by omega
+        simp only [hi, if_true, h0, hd1, hread, bind, Except.bind]
+        rw [ih f _ _ hrest hd2 (by omega) (by omega)]
+        simp [itemUnits]
+
+theorem utf16Loop_items (p post : List Byte) (endp : Nat) : ∀ (its : List SrcItem) (fuel i : Nat) (acc : List Nat),
+    ItemsOK post its → p.drop i = renderItems its ++ 34#8 :: post → endp = i + (renderItems its).length →
+    (renderItems its).length < fuel →
+    utf16Loop p endp fuel i acc = .ok (acc.reverse ++ its.flatMap (itemUnits .utf16)) := by
+  intro its
+  induction its with
+  | nil =>
+    intro fuel i acc _ _ he hf
+    cases fuel with
+    | zero => simp at hf
+    | succ f =>
+      simp only [renderItems, List.length_nil, Nat.add_zero] at he
+      rw [utf16Loop]; simp [he]
+  | cons it its ih =>
+    intro fuel i acc hok hd he hf
+    cases fuel with
+    | zero => simp at hf
+    | succ f =>
+      cases it with
+      | char c =>
+        obtain ⟨hc, hrest⟩ := hok
+        simp only [renderItems, renderItem, List.append_assoc, List.length_append] at hd he hf
+        have hl := encode_length c (by have := hc.1; omega)
+        have hpos := utf8Len_pos c.toNat
+        have hd' := drop_add p i _ _ _ hd rfl
+        rw [utf16Loop_char p endp f i acc c _ hc.1 hc.2.2.2.2 (by omega) hd]
+        rw [ih f _ _ hrest (by rw [← hl]; exact hd') (by omega) (by omega)]
+        simp [itemUnits, utf16_toNat c hc.1]
+      | esc body v =>
+        obtain ⟨⟨b, tl, hb, _, _, _⟩, hread, hrest⟩ := hok
+        simp only [renderItems, renderItem, List.cons_append, List.append_assoc, List.length_cons, List.length_append] at hd he hf
+        have h0 : byteAt p i = 92#8 := byteAt_of_drop p i _ _ hd
+        have hd1 : p.drop (i + 1) = body ++ (renderItems its ++ 34#8 :: post) := drop_add p i 1 [92#8] _ (by simpa using hd) rfl
+        have hd2 := drop_add p (i + 1) _ _ _ hd1 rfl
+        rw [utf16Loop]
+        have hi : i < endp := by omega
+        simp only [hi, if_true, h0, hd1, hread, bind, Except.bind]
+        rw [ih f _ _ hrest hd2 (by omega) (by omega)]
+        simp [itemUnits]
+
+theorem utf32Loop_items (p post : List Byte) (endp : Nat) : ∀ (its : List SrcItem) (fuel i : Nat) (acc : List Nat),
+    ItemsOK post its → p.drop i = renderItems its ++ 34#8 :: post → endp = i + (renderItems its).length →
+    (renderItems its).length < fuel →
+    utf32Loop p endp fuel i acc = .ok (acc.reverse ++ its.flatMap (itemUnits .utf32)) := by
+  intro its
+  induction its with
+  | nil =>
+    intro fuel i acc _ _ he hf
+    cases fuel with
+    | zero => simp at hf
+    | succ f =>
+      simp only [renderItems, List.length_nil, Nat.add_zero] at he
+      rw [utf32Loop]; simp [he]
+  | cons it its ih =>
+    intro fuel i acc hok hd he hf
+    cases fuel with
+    | zero => simp at hf
+    | succ f =>
+      cases it with
+      | char c =>
+        obtain ⟨hc, hrest⟩ := hok
+        simp only [renderItems, renderItem, List.append_assoc, List.length_append] at hd he hf
+        have hl := encode_length c (by have := hc.1; omega)
+        have hpos := utf8Len_pos c.toNat
+        have hd' := drop_add p i _ _ _ hd rfl
+        rw [utf32Loop_char p endp f i acc c _ hc.1 hc.2.2.2.2 (by omega) hd]
+        rw [ih f _ _ hrest (by rw [← hl]; exact hd') (by omega) (by omega)]
+        simp [itemUnits]
+      | esc body v =>
+        obtain ⟨⟨b, tl, hb, _, _, _⟩, hread, hrest⟩ := hok
+        simp only [renderItems, renderItem, List.cons_append, List.append_assoc, List.length_cons, List.length_append] at hd he hf
+        have h0 : byteAt p i = 92#8 := byteAt_of_drop p i _ _ hd
+        have hd1 : p.drop (i + 1) = body ++ (renderItems its ++ 34#8 :: post) := drop_add p i 1 [92#8] _ (by simpa using hd) rfl
+        have hd2 := drop_add p (i + 1) _ _ _ hd1 rfl
+        rw [utf32Loop]
+        have hi : i < endp := by omega
+        simp only [hi, if_true, h0, hd1, hread, bind, Except.bind]
+        rw [ih f _ _ hrest hd2 (by omega) (by omega)]
+        simp [itemUnits]
+
+/-- **whole literal**: reader `r` on `pre "body" post` where the body is a well-formed item sequence -/
+theorem readString_items (r : StrReader) (ty : Ty) (pre post : List Byte) (its : List SrcItem) (hok : ItemsOK post its) :
+    readString r ty (pre ++ 34#8 :: (renderItems its ++ 34#8 :: post)) pre.length =
+      .ok ⟨ty, its.flatMap (itemUnits r), pre.length + 1 + (renderItems its).length + 1,
+           (pre ++ 34#8 :: (renderItems its ++ 34#8 :: post)).take (pre.length + 1 + (renderItems its).length + 1)⟩ := by
+  have hd : (pre ++ 34#8 :: (renderItems its ++ 34#8 :: post)).drop (pre.length + 1) = renderItems its ++ 34#8 :: post := by
+    have : pre ++ 34#8 :: (renderItems its ++ 34#8 :: post) = (pre ++ [34#8]) ++ (renderItems its ++ 34#8 :: post) := by simp
+    rw [this, List.drop_left' (by simp)]
+  have hend : stringLiteralEnd (pre ++ 34#8 :: (renderItems its ++ 34#8 :: post)) (pre.length + 1) =
+      .ok (pre.length + 1 + (renderItems its).length) := by
+    unfold stringLiteralEnd
+    have := strEnd_items _ post its (pre.length + post.length + 2) (pre.length + 1) hok hd
+    have e : (pre ++ 34#8 :: (renderItems its ++ 34#8 :: post)).length + 2 =
+        pre.length + post.length + 2 + (renderItems its).length + 1 + 1 := by simp; omega
+    -- one unit more than needed: use the lemma with fuel + 1
+    have := strEnd_items _ post its (pre.length + post.length + 3) (pre.length + 1) hok hd
+    have e2 : (pre ++ 34#8 :: (renderItems its ++ 34#8 :: post)).length + 2 =
+        pre.length + post.length + 3 + (renderItems its).length + 1 := by simp; omega
+    rw [e2, this]
+  unfold readString
+  simp only [hend, bind, Except.bind, pure, Except.pure]
+  cases r with
+  | narrow =>
+    simp only
+    rw [narrowLoop_items _ post _ its _ _ [] hok hd rfl (by omega)]
+    simp
+  | utf16 =>
+    simp only
+    rw [utf16Loop_items _ post _ its _ _ [] hok hd rfl (by omega)]
+    simp
+  | utf32 =>
+    simp only
+    rw [utf32Loop_items _ post _ its _ _ [] hok hd rfl (by omega)]
+    simp
+
+-- ------------------------------------------------------------------ convert_pp_int on a whole token
+
+theorem byteAt_append_right (a b : List Byte) (k : Nat) : byteAt (a ++ b) (a.length + k) = byteAt b k := by
+  simp only [byteAt, List.getD_eq_getElem?_getD]
+  rw [List.getElem?_append_right (by omega)]
+  simp
+
+theorem byteAt_append_left (a b : List Byte) (k : Nat) (h : k < a.length) : byteAt (a ++ b) k = byteAt a k := by
+  simp only [byteAt, List.getD_eq_getElem?_getD]
+  rw [List.getElem?_append_left h]
+
+/-- the suffix tests only look at the bytes from `i` on -/
+theorem matchText_offset (front sfx : List Byte) : ∀ (pat : List Nat) (k : Nat) (ci : Bool),
+    matchText (front ++ sfx) (front.length + k) pat ci = matchText sfx k pat ci := by
+  intro pat
+  induction pat with
+  | nil => intro k ci; rfl
+  | cons c cs ih =>
+    intro k ci
+    simp only [matchText, byteAt_append_right, Nat.add_assoc, ih]
+
+theorem matchSuffix_offset (front sfx : List Byte) :
+    matchSuffix (front ++ sfx) front.length = matchSuffix sfx 0 := by
+  unfold matchSuffix
+  have : (fun (a : SuffixArm) => a.pats.any (fun pt => matchText (front ++ sfx) front.length pt.1 pt.2)) =
+      (fun (a : SuffixArm) => a.pats.any (fun pt => matchText sfx 0 pt.1 pt.2)) := by
+    funext a
+    congr 1
+    funext pt
+    exact matchText_offset front sfx pt.1 0 pt.2
+  rw [this]
+
+/-- value of a digit character in the sense of `strtoul` agrees with the hexadecimal digit value -/
+theorem digitVal_hex (b : Byte) : isXDigit b = true → digitVal b = some (hexDigitValue b.toNat) ∧ hexDigitValue b.toNat < 16 := by
+  revert b; apply forall_byte; decide +kernel
+
+/-- the digit loop of `strtoul`: digits `ds` (each below the base) followed by a byte that is not a digit of the base -/
+theorem strtoulDigits_spec (p : List Byte) (base : Nat) : ∀ (ds : List Byte) (fuel i v : Nat),
+    ds.length < fuel → (∀ k, k < ds.length → byteAt p (i + k) = ds.getD k 0#8) →
+    (∀ d ∈ ds, isXDigit d = true ∧ hexDigitValue d.toNat < base) →
+    (∀ x, digitVal (byteAt p (i + ds.length)) = some x → ¬ x < base) →
+    strtoulDigits p base fuel i v = (ds.foldl (fun a d => a * base + hexDigitValue d.toNat) v, i + ds.length) := by
+  intro ds
+  induction ds with
+  | nil =>
+    intro fuel i v hf _ _ hend
+    cases fuel with
+    | zero => simp at hf
+    | succ fuel =>
+      simp only [List.length_nil, Nat.add_zero] at hend
+      rw [strtoulDigits]
+      cases hdv : digitVal (byteAt p i) with
+      | none => simp
+      | some x => simp [hend x hdv]
+  | cons d ds ih =>
+    intro fuel i v hf hb hd hend
+    cases fuel with
+    | zero => simp at hf
+    | succ fuel =>
+      have h0 : byteAt p i = d := by simpa using hb 0 (by simp)
+      obtain ⟨hx, hlt⟩ := hd d (by simp)
+      rw [strtoulDigits]
+      simp only [h0, (digitVal_hex d hx).1, hlt, if_true, List.foldl_cons]
+      rw [ih fuel (i + 1) _ (by simp at hf; omega) ?_ (fun y hy => hd y (List.mem_cons_of_mem _ hy)) ?_]
+      · simp [Nat.add_assoc, Nat.add_comm 1]
+      · intro k hk
+        have := hb (k + 1) (by simp; omega)
+        simpa [Nat.add_assoc, Nat.add_comm 1] using this
+      · simpa [Nat.add_assoc, Nat.add_comm 1] using hend
+
+/-- facts about each of the 23 suffix spellings -/
+theorem suffix_facts : ∀ e ∈ suffixSpellings,
+    matchSuffix (sfxBytes e.1) 0 = ((sfxBytes e.1).length, e.2.hasL, e.2.hasU) ∧
+    (∀ x, digitVal (byteAt (sfxBytes e.1) 0) = some x → ¬ x < 17) ∧
+    toLower (byteAt (sfxBytes e.1) 0) ≠ 120#8 ∧ toLower (byteAt (sfxBytes e.1) 0) ≠ 98#8 := by
+  decide +kernel
+
+theorem convertPpInt_parts (front ds sfx : List Byte) (base : Nat) (l u : Bool)
+    (hbase : detectBase (front ++ ds ++ sfx) = (base, front.length))
+    (hds : ∀ d ∈ ds, isXDigit d = true ∧ hexDigitValue d.toNat < base)
+    (hnext : ∀ x, digitVal (byteAt sfx 0) = some x → ¬ x < base)
+    (hsfx : matchSuffix sfx 0 = (sfx.length, l, u))
+    (hv : digitsValue base (ds.map (fun d => hexDigitValue d.toNat)) < 2 ^ 64) :
+    convertPpInt (front ++ ds ++ sfx) =
+      some (BitVec.ofNat 64 (digitsValue base (ds.map (fun d => hexDigitValue d.toNat))),
+            intLitType base l u (BitVec.ofNat 64 (digitsValue base (ds.map (fun d => hexDigitValue d.toNat))))) := by
+  have hdig := strtoulDigits_spec (front ++ ds ++ sfx) base ds ((front ++ ds ++ sfx).length + 1) front.length 0
+    (by simp; omega)
+    (by
+      intro k hk
+      rw [List.append_assoc, byteAt_append_right, byteAt_append_left _ _ _ hk]; rfl)
+    hds
+    (by
+      have : front.length + ds.length = (front ++ ds).length := by simp
+      rw [this, ← Nat.add_zero (front ++ ds).length, byteAt_append_right]
+      exact hnext)
+  have hm : matchSuffix (front ++ ds ++ sfx) (front.length + ds.length) = (sfx.length, l, u) := by
+    have := matchSuffix_offset (front ++ ds) sfx
+    simp only [List.length_append] at this
+    rw [this, hsfx]
+  unfold convertPpInt strtoul
+  simp only [hbase, hdig, hm]
+  have hfold : ds.foldl (fun a d => a * base + hexDigitValue d.toNat) 0 =
+      digitsValue base (ds.map (fun d => hexDigitValue d.toNat)) := by
+    simp [digitsValue, List.foldl_map]
+  rw [hfold]
+  simp [hv]
+  omega
+
+theorem detectBase_hex (x d : Byte) (rest : List Byte) (hx : x = 120#8 ∨ x = 88#8) (hd : isXDigit d = true) :
+    detectBase (48#8 :: x :: d :: rest) = (16, 2) := by
+  rcases hx with rfl | rfl <;>
+    simp [detectBase, basePrefixes, matchText, nextOk, byteAt_zero, byteAt_succ, hd, toLower]
+
+theorem detectBase_bin (x d : Byte) (rest : List Byte) (hx : x = 98#8 ∨ x = 66#8) (hd : d = 48#8 ∨ d = 49#8) :
+    detectBase (48#8 :: x :: d :: rest) = (2, 2) := by
+  rcases hx with rfl | rfl <;> rcases hd with rfl | rfl <;>
+    simp [detectBase, basePrefixes, List.find?, matchText, nextOk, byteAt_zero, byteAt_succ, toLower]
+
+theorem tl120 : toLower (BitVec.ofNat 8 120) = 120#8 := by decide
+theorem tl98 : toLower (BitVec.ofNat 8 98) = 98#8 := by decide
+theorem tl48 : toLower (BitVec.ofNat 8 48) = 48#8 := by decide
+
+theorem detectBase_oct (rest : List Byte) (h1 : toLower (byteAt rest 0) ≠ 120#8) (h2 : toLower (byteAt rest 0) ≠ 98#8) :
+    detectBase (48#8 :: rest) = (8, 0) := by
+  have e1 : byteAt (48#8 :: rest) 1 = byteAt rest 0 := byteAt_succ _ _ 0
+  have b1 : (toLower (byteAt rest 0) == 120#8) = false := by simpa using h1
+  have b2 : (toLower (byteAt rest 0) == 98#8) = false := by simpa using h2
+  have a1 : matchText (48#8 :: rest) 0 [48, 120] true = false := by
+    simp only [matchText, byteAt_zero, Nat.zero_add, e1, if_true, tl120, b1, Bool.and_false, Bool.false_and]
+  have a2 : matchText (48#8 :: rest) 0 [48, 98] true = false := by
+    simp only [matchText, byteAt_zero, Nat.zero_add, e1, if_true, tl98, b2, Bool.and_false, Bool.false_and]
+  have a3 : matchText (48#8 :: rest) 0 [48] false = true := by
+    simp [matchText, byteAt_zero]
+  simp only [detectBase, basePrefixes, List.find?, a1, a2, a3, nextOk, Bool.false_and, Bool.and_true]
+
+theorem detectBase_dec (d : Byte) (rest : List Byte) (hd : 49 ≤ d.toNat ∧ d.toNat ≤ 57) :
+    detectBase (d :: rest) = (10, 0) := by
+  have hlow : toLower d = d := by
+    unfold toLower
+    have : ¬ (65 ≤ d.toNat ∧ d.toNat ≤ 90) := by omega
+    simp only [decide_eq_true_eq, Bool.and_eq_true]
+    rw [if_neg this]
+  have hne : (d == 48#8) = false := by
+    apply beq_eq_false_iff_ne.mpr
+    intro h; rw [h] at hd; simp at hd
+  have a1 : matchText (d :: rest) 0 [48, 120] true = false := by
+    simp only [matchText, byteAt_zero, if_true, hlow, tl48, hne, Bool.and_false, Bool.false_and]
+  have a2 : matchText (d :: rest) 0 [48, 98] true = false := by
+    simp only [matchText, byteAt_zero, if_true, hlow, tl48, hne, Bool.and_false, Bool.false_and]
+  have a3 : matchText (d :: rest) 0 [48] false = false := by
+    have : (d == BitVec.ofNat 8 48) = false := hne
+    simp only [matchText, byteAt_zero, this, Bool.and_false, Bool.false_and, Bool.false_eq_true, if_false]
+  simp only [detectBase, basePrefixes, List.find?, a1, a2, a3, Bool.false_and, defaultBase]
+
+theorem oct_facts (y : Byte) : isOctDigit y = true →
+    isXDigit y = true ∧ hexDigitValue y.toNat < 8 ∧ toLower y ≠ 120#8 ∧ toLower y ≠ 98#8 := by
+  revert y; apply forall_byte; decide +kernel
+
+theorem dec_facts (y : Byte) : ChibiVerif.Literals.isDigit y = true → isXDigit y = true ∧ hexDigitValue y.toNat < 10 := by
+  revert y; apply forall_byte; decide +kernel
+
+theorem hex_facts (y : Byte) : isXDigit y = true → hexDigitValue y.toNat < 16 := by
+  revert y; apply forall_byte; decide +kernel
+
+theorem int_value (base : Nat) (front ds : List Byte) (h : IntSpelling base front ds)
+    (e : String × Suffix) (he : e ∈ suffixSpellings)
+    (hv : digitsValue base (ds.map (fun d => hexDigitValue d.toNat)) < 2 ^ 64) :
+    convertPpInt (front ++ ds ++ sfxBytes e.1) =
+      some (BitVec.ofNat 64 (digitsValue base (ds.map (fun d => hexDigitValue d.toNat))),
+            intLitType base e.2.hasL e.2.hasU (BitVec.ofNat 64 (digitsValue base (ds.map (fun d => hexDigitValue d.toNat))))) := by
+  obtain ⟨hs1, hs2, hs3, hs4⟩ := suffix_facts e he
+  cases h with
+  | hex x d ds hx hd =>
+    apply convertPpInt_parts _ _ _ _ _ _ ?_ (fun y hy => ⟨hd y hy, hex_facts y (hd y hy)⟩)
+      (fun x hx' hlt => hs2 x hx' (by omega)) hs1 hv
+    simp only [List.cons_append, List.nil_append, List.length_cons, List.length_nil]
+    exact detectBase_hex x d _ hx (hd d (by simp))
+  | bin x d ds hx hd =>
+    have hb : ∀ y ∈ d :: ds, isXDigit y = true ∧ hexDigitValue y.toNat < 2 := by
+      intro y hy; rcases hd y hy with rfl | rfl <;> decide
+    apply convertPpInt_parts _ _ _ _ _ _ ?_ hb (fun x hx' hlt => hs2 x hx' (by omega)) hs1 hv
+    simp only [List.cons_append, List.nil_append, List.length_cons, List.length_nil]
+    exact detectBase_bin x d _ hx (hd d (by simp))
+  | oct ds hd =>
+    have hb : ∀ y ∈ 48#8 :: ds, isXDigit y = true ∧ hexDigitValue y.toNat < 8 := by
+      intro y hy
+      rcases List.mem_cons.mp hy with rfl | hy
+      · decide
+      · exact ⟨(oct_facts y (hd y hy)).1, (oct_facts y (hd y hy)).2.1⟩
+    apply convertPpInt_parts _ _ _ _ _ _ ?_ hb (fun x hx' hlt => hs2 x hx' (by omega)) hs1 hv
+    simp only [List.nil_append, List.cons_append, List.length_nil]
+    apply detectBase_oct
+    · cases ds with
+      | nil => simpa using hs3
+      | cons y ys => simp only [List.cons_append, byteAt_zero]; exact (oct_facts y (hd y (by simp))).2.2.1
+    · cases ds with
+      | nil => simpa using hs4
+      | cons y ys => simp only [List.cons_append, byteAt_zero]; exact (oct_facts y (hd y (by simp))).2.2.2
+  | dec d ds hd0 hd =>
+    have hb : ∀ y ∈ d :: ds, isXDigit y = true ∧ hexDigitValue y.toNat < 10 := by
+      intro y hy
+      rcases List.mem_cons.mp hy with rfl | hy
+      · have : ChibiVerif.Literals.isDigit y = true := by simp [ChibiVerif.Literals.isDigit]; omega
+        exact dec_facts y this
+      · exact dec_facts y (hd y hy)
+    apply convertPpInt_parts _ _ _ _ _ _ ?_ hb (fun x hx' hlt => hs2 x hx' (by omega)) hs1 hv
+    simp only [List.nil_append, List.cons_append, List.length_nil]
+    exact detectBase_dec d _ hd0
 
 end ChibiVerif.Lemmas.Readers
